@@ -6,7 +6,7 @@
 EXTENDS JetProg
 CONSTANTS Depth
 
-Shapes  == {"str", "int", "float", "bool", "bytes", "stringer", "error", "ptrstr", "struct", "longstr", "istr"}
+Shapes  == {"str", "int", "float", "bool", "bytes", "stringer", "error", "ptrstr", "struct", "longstr", "istr", "apos", "nul", "quot", "numstringer"}
 Stages  == {"", "raw", "unsafe", "safeHtml", "safeJs", "usersw"}
 Focals  == {"plain", "thenfail", "ctx", "twice", "swargfail", "swarginc"}
 
